@@ -461,7 +461,21 @@ func (s *Server) getWorkspaceResolved(docURI protocol.DocumentURI) *include.Reso
 			return resolved
 		}
 	}
-	return s.GetResolved(docURI)
+	resolved := s.GetResolved(docURI)
+	if resolved == nil {
+		return nil
+	}
+	// The stored include tree was computed by the last finished background
+	// analysis and may belong to an older version of the document: pair the
+	// included files with the current text of the document itself.
+	doc, ok := s.GetDocument(docURI)
+	if !ok {
+		return resolved
+	}
+	journal, _ := parser.Parse(doc)
+	current := *resolved
+	current.Primary = journal
+	return &current
 }
 
 func (s *Server) RootURI() string {
